@@ -2,7 +2,7 @@
     translate/t_queue.py regenerates from /repo on every run (gen/GenQueue.v),
     and the follow-up completeness statements over those tables. *)
 From Coq Require Import String.
-From KV Require Import base.Tac queue.Queue gen.GenQueue.
+From KV Require Import base.Tac queue.Queue queue.FollowSpec gen.GenQueue.
 Open Scope string_scope.
 
 Theorem GenQueue_flags_agree : forall m, gen_flags m = flags m.
@@ -24,44 +24,6 @@ Proof. reflexivity. Qed.
 (** ** Follow-ups implied by committed changes.
     (event constructor, task that must be scheduled in the pre-save step, guards under which the
     call may sit). *)
-Definition g_none := "".
-Definition g_parent_for_rc := "if let Ok(parent) = ca.parent_for_rc(resource_class_name)".
-Definition g_repo := "if ca.repository_contact().is_ok()".
-Definition g_parents := "for parent in ca.parents()".
-
-Definition required_ca_followups : list (string * string * list string) :=
-  [ ("RoasUpdated", "SyncRepo", [g_none]);
-    ("AspaObjectsUpdated", "SyncRepo", [g_none]);
-    ("ChildCertificatesUpdated", "SyncRepo", [g_none]);
-    ("BgpSecCertificatesUpdated", "SyncRepo", [g_none]);
-    ("ChildKeyRevoked", "SyncRepo", [g_none]);
-    ("KeyPendingToNew", "SyncRepo", [g_none]);
-    ("KeyPendingToActive", "SyncRepo", [g_none]);
-    ("KeyRollFinished", "SyncRepo", [g_none]);
-    ("KeyRollActivated", "SyncRepo", [g_none]);
-    ("KeyRollActivated", "SyncParent", [g_none; g_parent_for_rc]);
-    ("ParentRemoved", "SyncRepo", [g_none]);
-    ("ResourceClassRemoved", "SyncRepo", [g_none]);
-    ("ResourceClassRemoved", "ResourceClassRemoved", [g_none]);
-    ("UnexpectedKeyFound", "UnexpectedKey", [g_none]);
-    ("ParentAdded", "SyncParent", [g_none; g_repo]);
-    ("ParentUpdated", "SyncParent", [g_none; g_repo]);
-    ("RepoUpdated", "SyncParent", [g_parents]);
-    ("CertificateRequested", "SyncParent", [g_none; g_parent_for_rc]) ].
-
-Definition required_ta_pre : list (string * string * list string) :=
-  [ ("ChildRequestAdded", "SyncTrustAnchorProxySignerIfPossible", [g_none]);
-    ("SignerResponseReceived", "SyncRepo", [g_none]) ].
-
-Definition mem_str (s : string) (l : list string) : bool := existsb (String.eqb s) l.
-
-Definition has_followup (table : list (string * list (string * string * string)))
-           (req : string * string * list string) : bool :=
-  let '(ev, task, guards) := req in
-  existsb (fun '(ev', l) => String.eqb ev ev' &&
-             existsb (fun '(entry, t, g) => String.eqb entry "schedule" && String.eqb t task && mem_str g guards) l)
-          table.
-
 Theorem followups_complete :
   forall req, In req required_ca_followups -> has_followup gen_ca_pre_save req = true.
 Proof. apply forallb_forall. vm_compute. reflexivity. Qed.
@@ -81,9 +43,6 @@ Theorem post_save_child_sync :
 Proof. split; vm_compute; reflexivity. Qed.
 
 (** ** Recurring maintenance: queued at every start, never reports Done. *)
-Definition recurring : list string := ["RepublishIfNeeded"; "RenewObjectsIfNeeded"; "UpdateSnapshots"].
-Definition recurring_conditional : list string := ["RenewTestbedTa"; "RefreshAnnouncementsInfo"; "SuspendChildrenIfNeeded"].
-
 Definition lookup_process (t : string) : list (string * string) :=
   match find (fun '(t', _) => String.eqb t t') gen_process with Some (_, r) => r | None => [] end.
 
